@@ -57,7 +57,9 @@ NOLANG = {
         "message('o=' + get_option('o'))\n"
         "sp = subproject('sp')\n"
         "configure_file(output: 'conf.h', configuration: {'O': get_option('o'), 'N': get_option('n')})\n"
-        "custom_target('ct', output: 'ct.out', command: ['true'], build_by_default: true)\n"),
+        "custom_target('ct', output: 'ct.out', command: ['true'], build_by_default: true)\n"
+        # a command that meson serialises into meson-private/meson_exe_*.dat (env + capture): one more state file
+        "custom_target('ctw', output: 'ctw.out', capture: true, env: {'KP_ENV': 'v'}, command: [find_program('true')], build_by_default: true)\n"),
     'meson.options': (
         "option('o', type: 'string', value: 'd0')\n"
         "option('n', type: 'integer', value: 3)\n"
@@ -196,8 +198,15 @@ def read_mlist(path: str) -> T.List[list]:
 _TMPNAME = re.compile(r'tmp[a-z0-9_]{6,}')
 
 
+_DIGEST = re.compile(r'[0-9a-f]{40}')      # content digests in file names (meson_exe_<prog>_<sha1>.dat) depend on absolute paths
+
+
+def _opname(p: str) -> str:
+    return _DIGEST.sub('H', _TMPNAME.sub('tmp*', p))
+
+
 def same_op(a: T.Sequence, b: T.Sequence) -> bool:
-    return a[0] == b[0] and _TMPNAME.sub('tmp*', a[1]) == _TMPNAME.sub('tmp*', b[1])
+    return a[0] == b[0] and _opname(a[1]) == _opname(b[1])
 
 
 # ---------------------------------------------------------------------------
@@ -405,6 +414,13 @@ def judge_one(site: Site, fa: T.List[str], pre: T.Dict[str, T.Any], post: T.Dict
                 f'the kill left meson-private/cmd_line.txt {"in place" if had_cmdline else "MISSING"}; after `{shown}` option {name!r} = {got!r}; allowed by the property: pre-X value {pre.get(name)!r} or the value X '
                 f'gives it {post.get(name)!r}. All offending options: ' +
                 ', '.join(f'{n}={g!r} (allowed {a!r})' for n, g, a in bad[:8])), 'bad-value', noop
+    # "no state file is left unreadable for that run": every pickled file of meson-private must load
+    bad_dat = unreadable_state_files(site)
+    if bad_dat:
+        return (f'state-file-unreadable/{re.sub(r"[0-9a-f]{8,}", "H", os.path.basename(bad_dat[0][0]))}',
+                f'`{shown}` exits 0, but afterwards {bad_dat[0][0]} cannot be loaded ({bad_dat[0][1]}); the command that '
+                f'uses it (ninja running the wrapped command, meson test, meson install) will fail until it is deleted by hand. '
+                f'All unreadable files: {[b[0] for b in bad_dat]}'), 'state-file-unreadable', noop
     label = 'all-old' if n_new == 0 else ('all-new' if n_old == 0 else 'mixed-old-new')
     if 'Regenerating configuration from scratch' in r.text:
         label += ' (follow-up regenerated an unreadable coredata.dat from cmd_line.txt)'
@@ -428,6 +444,24 @@ def judge_one(site: Site, fa: T.List[str], pre: T.Dict[str, T.Any], post: T.Dict
                         + ', '.join(f'{n}={g!r}' for n, g, _ in bad2[:8])), 'bad-value-after-later-wipe', noop
         label += ' +later-wipe-ok'
     return None, label, noop
+
+
+_LOAD_DAT = ('import pickle, sys, glob, os\nsys.path.insert(0, sys.argv[1])\nfor f in sorted(glob.glob(os.path.join(sys.argv[2], "meson-private", "*.dat"))):\n'
+             '    try:\n        with open(f, "rb") as fh:\n            pickle.load(fh)\n'
+             '    except Exception as e:\n        print("BAD\\t%s\\t%s: %s" % (os.path.relpath(f, sys.argv[2]), type(e).__name__, e))\n')
+
+
+def unreadable_state_files(site: Site) -> T.List[T.Tuple[str, str]]:
+    from harness.core import REPO
+    p = subprocess.run([mesondrv.PY, '-B', '-c', _LOAD_DAT, REPO, site.B], stdout=subprocess.PIPE, stderr=subprocess.PIPE, timeout=300)
+    out = []
+    for line in p.stdout.decode('utf-8', 'replace').splitlines():
+        parts = line.split('\t')
+        if len(parts) == 3 and parts[0] == 'BAD':
+            out.append((parts[1], parts[2][:200]))
+    if p.returncode != 0 and not out:
+        raise HarnessError(f'state file loader failed: {p.stderr.decode("utf-8", "replace")[-600:]}')
+    return out
 
 
 def kill_and_judge(site: Site, M: T.List[list], k: int, mode: str, pre: dict, post: dict, defaults: dict, post_digest: str,
